@@ -11,7 +11,8 @@
    the shortened value in a new buffer", c_trunc_mode = TruncCopy), and for the configurations accepted by the
    decidable check [mem_static_targets_own] before that repair.
    [mem_ev_ok]: a record is shorter than 2^31 bytes (the stated maximum of the pool arithmetic). *)
-From SV Require Import Model.Common Model.Memory Model.MemoryStores Proofs.MemoryProofs Proofs.MemoryStatic Proofs.MemoryWitnesses
+(* Model.MemoryRun (the correspondence entry point) is imported so that building this file also rebuilds it *)
+From SV Require Import Model.Common Model.Memory Model.MemoryRun Model.MemoryStores Proofs.MemoryProofs Proofs.MemoryStatic Proofs.MemoryWitnesses
   Proofs.MemoryStoresProofs.
 Open Scope nat_scope.
 
@@ -169,12 +170,13 @@ Theorem C12_no_fault_after_repair :
 Proof. intros c evs H. exact (mem_run_copy_no_fault c evs (mem_init c) H). Qed.
 Print Assumptions C12_no_fault_after_repair.
 
-(* The in-place helpers (OverwriteNTruncate, CleanUTF8, truncate in either form) never slice out of range: the only Go
-   panic any history can end with is the parser's first-token slice (site 4: defect 1 of DESIGN.md section 6, property C09). *)
-Theorem C12_inplace_helpers_in_range :
-  forall c evs g s, mem_run c g evs = StepStop (GoPanic s) -> s = 4%N.
-Proof. exact mem_run_panic_site. Qed.
-Print Assumptions C12_inplace_helpers_in_range.
+(* No history of any configuration ends with a Go panic inside the parser or a transform: the in-place helpers
+   (OverwriteNTruncate, CleanUTF8, truncate in either form) never slice out of range, and the parser's first-token slice
+   has been repaired (property C09). *)
+Theorem C12_no_go_panic :
+  forall c evs g s, mem_run c g evs <> StepStop (GoPanic s).
+Proof. exact mem_run_no_gopanic. Qed.
+Print Assumptions C12_no_go_panic.
 
 (* LONG-LIVED STORES (pipeline key sets, metric key sets) keep deep copies: a store of copies reads the same in every
    state of the pipeline, whatever happens to records, buffers and pools afterwards; routing a record either finds its
@@ -214,10 +216,11 @@ Theorem C12_truncate_static_fault_refuted :
 Proof. exact wit_facility_fault. Qed.
 Print Assumptions C12_truncate_static_fault_refuted.
 
-(* REFUTED (multi-output instance, defect owned by C10): the unescape rewriter sets record.Unescaped on the shared
-   record, so with two outputs that rewrite "log" with unescape the second one is not unescaped ("a\nb" stays) -
-   the output of one output depends on the presence of another.  With c_rw_sets_flag = false both are unescaped. *)
-Theorem C12_unescape_flag_shared_refuted :
+(* REFUTED for the code BEFORE the repair of the unescape rewriter (commit "fix: the unescape rewriter no longer sets
+   record.Unescaped", property C10; model parameter c_rw_sets_flag = true): with two outputs that rewrite "log" with
+   unescape the second one was not unescaped ("a\nb" stays) - the bytes of one output depended on the presence of
+   another.  The repaired code (c_rw_sets_flag = false, what the correspondence runs against) unescapes both. *)
+Theorem C12_unescape_flag_before_repair_refuted :
   (exists g, mem_run (wit_cfg_flag true) (mem_init (wit_cfg_flag true))
                      [EvParse None None wit_escaped 1000; EvTransform 0; EvOutput 0; EvOutput 0] = StepOk g /\
              wit_log_of g 0 = [[97;10;98;32]%N] /\ wit_log_of g 1 = [[97;92;110;98]%N]) /\
@@ -225,7 +228,7 @@ Theorem C12_unescape_flag_shared_refuted :
                      [EvParse None None wit_escaped 1000; EvTransform 0; EvOutput 0; EvOutput 0] = StepOk g /\
              wit_log_of g 0 = [[97;10;98;32]%N] /\ wit_log_of g 1 = [[97;10;98;32]%N]).
 Proof. exact (conj wit_flag_shared wit_flag_not_shared). Qed.
-Print Assumptions C12_unescape_flag_shared_refuted.
+Print Assumptions C12_unescape_flag_before_repair_refuted.
 
 (* NON-VACUITY.  The hypotheses are met by concrete, non-trivial instances: (1) the repaired code on the very
    configuration that refutes the unrepaired one - the second record reuses struct 0 and buffer 0 of the first and
